@@ -29,6 +29,9 @@ type C11Case struct {
 	// ...; for a file loaded from disk: how its path is spelled). A location names the file the way
 	// the caller named it.
 	Names []int `json:"names,omitempty"`
+	// Readers: a text.Reader is created for every file once the set is complete (what every parse
+	// does first): creating a reader reads from the file, it does not change it
+	Readers bool `json:"readers,omitempty"`
 }
 
 func (c *C11Case) Describe() string { return fmt.Sprintf("files=%q beyond=%d", c.Files, c.Beyond) }
@@ -55,8 +58,9 @@ func genC11(t *rapid.T) interface{} {
 		c.ViaDisk = rapid.IntRange(0, 3).Draw(t, "bigDisk") > 0
 		c.BigOneLine = rapid.IntRange(0, 2).Draw(t, "bigOneLine") == 0
 	}
+	c.Readers = rapid.IntRange(0, 2).Draw(t, "readers") == 0
 	if rapid.IntRange(0, 2).Draw(t, "named") == 0 {
-		c.Names = rapid.SliceOfN(rapid.IntRange(0, 6), 1, 3).Draw(t, "names")
+		c.Names = rapid.SliceOfN(rapid.IntRange(0, 8), 1, 3).Draw(t, "names")
 	}
 	k := rapid.IntRange(0, 12).Draw(t, "lookups")
 	for i := 0; i < k; i++ {
@@ -165,6 +169,15 @@ func checkC11(ci interface{}, st *Stats) (err error) {
 		if len(pf) > 1 {
 			st.Class("files added one by one with lookups in between")
 		}
+	}
+	if c.Readers {
+		for i, f := range files {
+			rd := text.NewReader(f)
+			if got := rd.Remaining(f.Pos(0)); got != len(norm[i]) {
+				return fmt.Errorf("file %d: a reader created on it has %d bytes remaining at the file's start, the normalised content has %d", i, got, len(norm[i]))
+			}
+		}
+		st.Class("a reader was created on every file before the lookups")
 	}
 	base := 1
 	var bases []int
